@@ -719,8 +719,49 @@ func (l *RLoop) isElem(v ssa.Value) bool {
 		if al, ok := ld.X.(*ssa.Alloc); ok && al == l.ElemAl && al != nil {
 			return true
 		}
+		// a copy of the element written out field by field (`Row{Data: x[i].Data, Timestamp: x[i].Timestamp, …}`)
+		if al, ok := ld.X.(*ssa.Alloc); ok && l.literalCopy(al) {
+			return true
+		}
 	}
 	return false
+}
+
+// literalCopy: al is a struct literal at least two fields of which are read from the loop's element (x[i].f).
+func (l *RLoop) literalCopy(al *ssa.Alloc) bool {
+	if l.X == nil || derefStruct(al.Type()) == nil {
+		return false
+	}
+	xt := TermOf(l.X, nil).String()
+	n := 0
+	for _, r := range *al.Referrers() {
+		fa, ok := r.(*ssa.FieldAddr)
+		if !ok {
+			continue
+		}
+		for _, rr := range *fa.Referrers() {
+			st, ok := rr.(*ssa.Store)
+			if !ok || st.Addr != ssa.Value(fa) {
+				continue
+			}
+			ld, ok := st.Val.(*ssa.UnOp)
+			if !ok || ld.Op != token.MUL {
+				continue
+			}
+			src, ok := ld.X.(*ssa.FieldAddr)
+			if !ok {
+				continue
+			}
+			ia, ok := src.X.(*ssa.IndexAddr)
+			if !ok || !l.Blocks[ia.Block()] || TermOf(ia.X, nil).String() != xt {
+				continue
+			}
+			if fieldVarOf(src) == fieldVarOf(fa) {
+				n++
+			}
+		}
+	}
+	return n >= 2
 }
 
 // loopAppends lists the append calls inside the loop that append the loop element.
